@@ -48,7 +48,11 @@ type replySpec struct {
 	// CutAt > 0: the backend dies in the middle of its reply: after the
 	// head and that many body bytes the connection is reset.
 	CutAt int `json:"connection_reset_after_body_bytes,omitempty"`
-	body  []byte
+	// StaleFirst: the first request of the case, if it arrives on a connection
+	// that has already served a request, is read and then dropped: the
+	// connection is closed without an answer.
+	StaleFirst bool `json:"drop_first_attempt_on_reused_connection,omitempty"`
+	body       []byte
 }
 
 func sum(b []byte) string {
@@ -64,6 +68,8 @@ type backend struct {
 	script *replySpec
 	got    []*recReq
 	conns  int64
+	// requests dropped on a reused connection (replySpec.StaleFirst)
+	staleDrops int64
 }
 
 func newBackend(nListeners int) *backend {
@@ -116,7 +122,7 @@ func (b *backend) acceptLoop(ln net.Listener) {
 func (b *backend) serve(cn net.Conn) {
 	defer cn.Close()
 	br := bufio.NewReaderSize(cn, 64<<10)
-	for {
+	for served := 0; ; served++ {
 		// idle connections are kept open (the proxy's transport owns them);
 		// once a request has started it must arrive within the deadline.
 		cn.SetReadDeadline(time.Time{})
@@ -128,8 +134,13 @@ func (b *backend) serve(cn net.Conn) {
 		b.mu.Lock()
 		b.got = append(b.got, rq)
 		sp := b.script
+		first := len(b.got) == 1
 		b.mu.Unlock()
 		if rq.Err != "" {
+			return
+		}
+		if sp != nil && sp.StaleFirst && first && served > 0 {
+			atomic.AddInt64(&b.staleDrops, 1)
 			return
 		}
 		if sp == nil {
